@@ -133,6 +133,12 @@ func (lcm *LCM) DecodeFromBytes(data []byte, df gopacket.DecodeFeedback) error {
 	lcm.SequenceNumber = binary.BigEndian.Uint32(data[offset:8])
 	offset += 4
 
+	// The fragment fields, the channel name and the fingerprint are only present
+	// (and only assigned below) in some messages.
+	lcm.PayloadSize, lcm.FragmentOffset, lcm.FragmentNumber, lcm.TotalFragments = 0, 0, 0, 0
+	lcm.ChannelName = ""
+	lcm.fingerprint = 0
+
 	if lcm.Magic == LCMFragmentedHeaderMagic {
 		lcm.Fragmented = true
 
